@@ -53,6 +53,14 @@ def make_world(seed, jitter):
                 if ex[k][1] - ex[k][0] + 1 >= 280:
                     d = rng.randint(110, 150)
                     cands.append(("shifted-site", ex[:k] + [(ex[k][0] + d, ex[k][1])] + ex[k + 1:]))
+                if jitter == 0:
+                    # preset 'exact' (every splice-site tolerance is 0): ONE site of one intron moved by 20-30 bp, the other site kept; the
+                    # intron is long enough for the length change to stay below 20 %
+                    k = rng.randint(1, n - 2)
+                    d = rng.randint(20, 30)
+                    if ex[k][1] - ex[k][0] + 1 >= 120 and ex[k][0] - ex[k - 1][1] - 1 >= 6 * d and ex[k + 1][0] - ex[k][1] - 1 >= 6 * d:
+                        cands.append(("site-moved-20-30:right-site", ex[:k] + [(ex[k][0] + rng.choice((-d, d)), ex[k][1])] + ex[k + 1:]))
+                        cands.append(("site-moved-20-30:left-site", ex[:k] + [(ex[k][0], ex[k][1] + rng.choice((-d, d)))] + ex[k + 1:]))
                 if ex[0][0] > 800:
                     cands.append(("extended-start", [(ex[0][0] - rng.randint(420, 600), ex[0][1])] + ex[1:]))
                 cands.append(("extended-end", ex[:-1] + [(ex[-1][0], ex[-1][1] + rng.randint(420, 600))]))
@@ -241,10 +249,17 @@ def run(chk, scratch):
                     chk.violation("only-compatible-isoform-not-unique:%s" % mode, "%s: read %s has %s as its only compatible isoform, reported %s on %s" %
                                   (desc, rd.name, T.id, atype, sorted(reported)[:4]), wit)
             elif cls in ("skipped-exon", "extra-exon", "retained-intron", "shifted-site", "extended-start", "extended-end", "hidden-isoform",
-                         "extended-5prime-with-tail", "retained-terminal-intron", "end-inside-intron"):
+                         "extended-5prime-with-tail", "retained-terminal-intron", "end-inside-intron") or cls.startswith("site-moved-20-30"):
                 if not overl:
                     continue
-                if all(compat.hard_difference(t.exons, aligned) for t in overl):
+
+                def differs(t):
+                    if cls.startswith("site-moved-20-30"):
+                        # preset 'exact' only: a read intron that no intron of the isoform approaches by less than 15 bp at both ends
+                        ti = t.introns
+                        return any(not any(abs(ri[0] - ii[0]) < 15 and abs(ri[1] - ii[1]) < 15 for ii in ti) for ri in parse.introns_of(aligned))
+                    return compat.hard_difference(t.exons, aligned)
+                if all(differs(t) for t in overl):
                     judged_n += 1
                     chk.note()
                     chk.nontrivial.add((cls, preset) if cls != "extended-5prime-with-tail" else (cls, preset, tr.get("strand")))
